@@ -727,8 +727,14 @@ def run_one(base, i, prop=None, mode='random'):
 PROPS = ('C20',)
 TIERS = {'C20': {
     'quick': [('sweep', NCHUNK * 5 * NVARIANTS), ('random', 720)],
-    'thorough': [('sweep', NCHUNK * 5 * NVARIANTS * 12), ('random', 80000),
-                 ('opcode', 4000)]}}
+    'thorough': [('sweep', NCHUNK * 5 * NVARIANTS * 12), ('random', 80000)]}}
+# An opcode-granularity mode exists (mode 'opcode': f_trace_opcodes, plans
+# scaled from the line-level dry run) but is not part of the registered tiers:
+# CPython 3.12 instruments a code object for opcode events lazily, so the
+# event count of a code object's first traced execution in a process differs
+# from later ones and such runs do not replay exactly (the thorough tier's
+# determinism self-test reported it). The property is stated for source-line
+# boundaries, which the registered tiers cover.
 
 
 def make_case(base, prop, i, mode):
@@ -840,7 +846,7 @@ META = {'C20': {
     'level': 'exploration',
     'technique': 'deterministic simulation of thread schedules: real '
                  'threads run one at a time under a seeded plan with '
-                 'pre-emption at library source-line (and opcode) '
+                 'pre-emption at library source-line '
                  'boundaries, cooperative locks, operator edits placed in '
                  'the schedule; oracle: every decision equals a complete '
                  'old or new policy, and the settled store equals a fresh '
@@ -864,7 +870,7 @@ META = {'C20': {
 }}
 ASSUMPTIONS = [
     'pre-emption granularity is the source line inside /repo/oslo_policy '
-    '(opcode granularity in the opcode sub-run); frames of other libraries '
+    '; frames of other libraries '
     'are atomic',
     'locks created by library code through threading.Lock/RLock are made '
     'cooperative; other blocking primitives would surface as a harness hang',
